@@ -20,6 +20,7 @@ Round 5 (hunt): replace_variables substitutes whole identifiers only, judged on
 the parsed regular expression (repair a6b299c).
 Round 6: numeric text rewrites written as regular expressions are anchored on
 the left (judged on the parsed pattern).
+Review of the repairs: simplify goes through the sign cases of an absolute value one at a time when one will do, and on to the next while the result is None.
 NOT decided: everything that depends on sympy and on the sufficiency of random
 test points - the core of the property.
 """
@@ -542,3 +543,19 @@ def a_case_without_solution_contributes_nothing(ctx):
         isinstance(t_, ast.Compare) and isinstance(t_.ops[0], (ast.IsNot, ast.NotEq)) and isinstance(t_.comparators[0], ast.Constant) and t_.comparators[0].value is None for g in n.generators for t_ in g.ifs)]
     ctx.check(bool(drops), 'simplify#drop-empty', 'cases without a solution (None) are filtered out before the choice',
               'simplify hands back the None of a case without solution inside its tuple of cases (or picks it): generate_solvers(simplify(...)) then fails on a satisfiable system', f, f.node)
+    # (3) where only some of the cases are simplified (one will do when all=False), a case that comes back None is followed by the next:
+    # a call of the simplifier that is not made for every case (not the element of a comprehension over the cases) and takes a case
+    # OUT of a collection (pop / subscript / next) sits in a while loop that goes on as long as the result is None
+    simp_names = {'_simplify'} | {st.targets[0].id for st in stmts_of(f.node) if isinstance(st, ast.Assign) and len(st.targets) == 1 and isinstance(st.targets[0], ast.Name)
+                                  and isinstance(st.value, ast.Name) and st.value.id == '_simplify'}
+    for c2 in calls_where(f.node, lambda c_: isinstance(c_.func, ast.Name) and c_.func.id in simp_names, include_lambda=False):
+        if not c2.args or not any(isinstance(x, (ast.Subscript,)) or (isinstance(x, ast.Call) and isinstance(x.func, ast.Attribute) and x.func.attr == 'pop') or
+                                  (isinstance(x, ast.Call) and isinstance(x.func, ast.Name) and x.func.id == 'next') for x in ast.walk(c2.args[0])):
+            continue
+        st = enclosing_stmt(c2)
+        tgt = st.targets[0].id if isinstance(st, ast.Assign) and len(st.targets) == 1 and isinstance(st.targets[0], ast.Name) else None
+        loops = [p_ for (t_, tr, p_) in guards_of(st, stop=f.node) if isinstance(p_, ast.While) and tr]
+        goes_on = any(tgt and any(isinstance(x, ast.Compare) and isinstance(x.left, ast.Name) and x.left.id == tgt and isinstance(x.ops[0], ast.Is)
+                                  and isinstance(x.comparators[0], ast.Constant) and x.comparators[0].value is None for x in ast.walk(w.test)) for w in loops)
+        ctx.check(goes_on, 'simplify#next-case', 'a case without solution is followed by the next (while <result> is None)',
+                  'simplify simplifies one sign case (%s) and takes its result as it is: when that case contradicts the other lines the answer is None although another case has solutions' % ' '.join(unparse(c2).split())[:70], f, st)
